@@ -3,13 +3,11 @@ package main
 import (
 	"bytes"
 	"context"
-	"errors"
 	"fmt"
 	"os"
 	"os/exec"
 	"runtime"
 	"sort"
-	"strconv"
 	"strings"
 	"sync"
 	"sync/atomic"
@@ -113,10 +111,6 @@ func (stressArea) run1(line string) string {
 	return first
 }
 
-type stressPanic struct{ id int }
-
-func (p *stressPanic) Error() string { return "task " + strconv.Itoa(p.id) }
-
 func stressChild(args []string) {
 	if len(args) != 10 {
 		fmt.Println("FAIL bad child arguments")
@@ -137,16 +131,19 @@ func stressChild(args []string) {
 	startCnt := make([]atomic.Int32, tasks)
 	finCnt := make([]atomic.Int32, tasks)
 	recCnt := make([]atomic.Int32, tasks)
-	var badRec atomic.Int32
+	var badRec, nilRec, noMarker atomic.Int32
+	var curTaskOf sync.Map // goroutine id -> id of the panicking task it is running
 	var running, maxRunning atomic.Int32
 	var shutCalled atomic.Int64
 
 	panics := make([]bool, tasks)
+	pkind := make([]byte, tasks) // panic value kind (values.go)
 	kind := make([]int, tasks)
 	amount := make([]int, tasks)
 	rr := hx.NewRng(seed)
 	for i := range panics {
 		panics[i] = rr.Intn(100) < panicPct
+		pkind[i] = valueKinds[rr.Intn(len(valueKinds))]
 		kind[i] = rr.Intn(5)
 		amount[i] = rr.Intn(200)
 	}
@@ -184,14 +181,21 @@ func stressChild(args []string) {
 
 	opts := []taskqueue.Option{taskqueue.Workers(workers), taskqueue.Depth(depth)}
 	handler := func(err error) {
-		var pe *stressPanic
-		if errors.As(err, &pe) && pe.id >= 0 && pe.id < tasks {
-			recCnt[pe.id].Add(1)
-			if handlerPanics && pe.id%2 == 0 {
-				panic("bad recovery handler")
-			}
-		} else {
+		// the handler runs on the worker goroutine that ran the panicking task
+		v, ok := curTaskOf.LoadAndDelete(curGID())
+		if !ok {
 			badRec.Add(1)
+			return
+		}
+		id := v.(int)
+		recCnt[id].Add(1)
+		if err == nil {
+			nilRec.Add(1)
+		} else if hasText(pkind[id]) && !strings.Contains(errText(err), marker(id)) {
+			noMarker.Add(1)
+		}
+		if handlerPanics && id%2 == 0 {
+			panic("bad recovery handler")
 		}
 	}
 	switch mode {
@@ -238,7 +242,8 @@ func stressChild(args []string) {
 			finCnt[id].Add(1)
 			running.Add(-1)
 			if panics[id] {
-				panic(&stressPanic{id: id})
+				curTaskOf.Store(curGID(), id)
+				panicWith(pkind[id], id)
 			}
 		}
 	}
@@ -298,11 +303,18 @@ func stressChild(args []string) {
 			want = 1
 		}
 		if c := recCnt[id].Load(); c != want {
-			fail("task %d (panics=%v) was reported to the recovery handler %d times", id, panics[id], c)
+			fail("task %d (panics=%v, panic value kind %c) was reported to the recovery handler %d times, expected %d", id,
+				panics[id], pkind[id], c, want)
 		}
 	}
 	if badRec.Load() != 0 {
-		fail("recovery handler called %d times with an error that does not wrap the panic value", badRec.Load())
+		fail("recovery handler called %d times on a goroutine that was not running a panicking task", badRec.Load())
+	}
+	if nilRec.Load() != 0 {
+		fail("recovery handler called %d times with a nil error", nilRec.Load())
+	}
+	if noMarker.Load() != 0 {
+		fail("%d reported errors do not mention the text of the panic value", noMarker.Load())
 	}
 	if m := int(maxRunning.Load()); m > workers {
 		fail("%d tasks were running at the same instant with %d workers", m, workers)
